@@ -9,10 +9,10 @@ import tempfile
 from lib import tlc
 from lib.evidence import Report
 
-KINDS = ['sdc', 'mssdc', 'errest', 'logs', 'etol', 'getdef', 'mlsdc', 'pfasst', 'adapt', 'adaptres']
-ONESHOT = ['adapt', 'adaptres']  # step-size control: reproducible on a fresh controller (the property does not promise more)
+KINDS = ['sdc', 'mssdc', 'errest', 'logs', 'etol', 'getdef', 'mlsdc', 'pfasst', 'adapt', 'adaptres', 'rand1', 'rand2']
+ONESHOT = ['adapt', 'adaptres', 'rand1', 'rand2']  # step-size control: reproducible on a fresh controller (the property does not promise more)
 FAM = {'sdc': 'test', 'mssdc': 'test', 'errest': 'test', 'logs': 'test', 'etol': 'test', 'getdef': 'test', 'mlsdc': 'heat', 'pfasst': 'heat',
-       'adapt': 'vdp', 'adaptres': 'vdp'}
+       'adapt': 'vdp', 'adaptres': 'vdp', 'rand1': 'test', 'rand2': 'test'}
 
 
 def enumerate_histories(wd, maxops, simulate=None, seed=0):
@@ -83,6 +83,9 @@ def run(tier, seed):
                     rep.violation('input_modified', dict(kind='reentrancy', history=h['hist'], op=op))
                 if not r['still']:
                     rep.violation('result_changed_later', dict(kind='reentrancy', history=h['hist'], op=op))
+                if not r.get('stats_still', True):
+                    rep.violation('statistics_changed_later', dict(kind='reentrancy', history=h['hist'], op=op,
+                                                                   what='the statistics returned by this run were changed by a later run'))
                 for tab, key, val, name in ((table, json.dumps(op['term']), r['sol'], 'solution'),
                                             (stable, json.dumps(op['statsterm']), r['stats'], 'statistics')):
                     if key in tab and tab[key][0] != val:
